@@ -2,7 +2,7 @@
    MC of Heap.tla (allocator/tiling + saves configs), TLC-generated behaviours replayed on the real
    allocator/collector (micro heap) and validated by HeapTrace.tla, whole-program runs validated by
    HeapSummary.tla (every collection of every workload)."""
-import os, subprocess, sys, glob
+import json, os, subprocess, sys, glob
 import vlib, heapcommon as hc
 from vlib import Broken
 
@@ -46,6 +46,83 @@ def validate_macro(chk, sc, results, bound=(16, 1)):
     return r, allp, index
 
 
+def preserve_scripts(rng, n, steps):
+    """op histories over sexp_preserve_object / sexp_release_object: FIFO windows, LIFO, random order, repeated
+    preservation of one object, releases of objects that are not preserved; a collection every few steps"""
+    out = []
+    for s in range(n):
+        style = ["fifo", "lifo", "random", "multi"][s % 4]
+        lines, alive, held, nid = [], [], [], 0
+        for step in range(steps):
+            r = rng.random()
+            if r < 0.35 or not alive:
+                nid += 1
+                lines.append("A %d %d" % (nid, rng.choice([1, 3, 40, 1000, 5000])))
+                alive.append(nid)
+                lines.append("P %d" % nid)
+                held.append(nid)
+                if style == "multi" and rng.random() < 0.4:
+                    lines.append("P %d" % nid)
+                    held.append(nid)
+            elif r < 0.75 and held:
+                if style == "fifo":
+                    x = held.pop(0)
+                elif style == "lifo":
+                    x = held.pop()
+                else:
+                    x = held.pop(rng.randrange(len(held)))
+                lines.append("R %d" % x)
+            elif r < 0.8 and alive:
+                lines.append("R %d" % rng.choice(alive))        # possibly not preserved (any more): a no-op
+                x = lines[-1].split()[1]
+                if int(x) in held:
+                    held.remove(int(x))
+            else:
+                lines.append("C")
+                alive = [a for a in alive if a in held]
+            if nid > 3500:
+                break
+        lines.append("C")
+        out.append("\n".join(lines) + "\n")
+    return out
+
+
+def preserve_phase(chk, build, sc, rng):
+    """Preserve.tla: the embedding API's root multiset; every collection must reclaim exactly the unpreserved objects."""
+    exe = vlib.compile_c(build, os.path.join(vlib.VERIF, "harness", "c", "preserve.c"), sc.file("preserve"))
+    scripts = preserve_scripts(rng, 40 if chk.thorough else 12, 3000 if chk.thorough else 700)
+
+    def one(i_s):
+        i, text = i_s
+        sp = sc.file("pres_%d.txt" % i)
+        open(sp, "w").write(text)
+        try:
+            p = subprocess.run([exe, sp], env=build.env(), cwd=vlib.REPO, stdout=subprocess.PIPE, stderr=subprocess.PIPE, timeout=600)
+            out, rc = p.stdout.decode(errors="replace"), p.returncode
+        except subprocess.TimeoutExpired:
+            out, rc = "", -9
+        t = sc.file("pres_%d.ndjson" % i)
+        open(t, "w").write("\n".join(l for l in out.splitlines() if l.startswith("{")) + "\n")
+        r = vlib.run_tlc("Preserve.tla", "Preserve.cfg", sc.path, env={"TRACE": t}, workers=1, timeout=600, heap="2g")
+        return i, t, rc, r
+    okn = 0
+    for i, t, rc, r in vlib.parallel(one, list(enumerate(scripts)), jobs=6):
+        if r.error and "Postcondition" not in r.error:
+            raise Broken("Preserve.tla failed: %s" % r.error[:1000])
+        if r.ok and rc == 0:
+            okn += 1
+            continue
+        evs = vlib.read_ndjson(t)
+        ra = hc.rejected_at(r)
+        idx = (ra[0] - 1) if ra else len(evs) - 1
+        ev = evs[idx] if 0 <= idx < len(evs) else {}
+        key = "preserve-api:%s" % ("crash" if rc != 0 else ("collect-reclaims-wrong-set" if ev.get("e") == "Collect" else ev.get("e", "?")))
+        chk.report(key, "preserve/release history %d (%s order): event %d rejected by Preserve.tla: %s (exit %d)" % (i, ["fifo", "lifo", "random", "multi"][i % 4], idx + 1, json.dumps(ev)[:200], rc),
+                   "preserve_%d.json" % i, {"key": key, "event": ev, "script": open(sc.file("pres_%d.txt" % i)).read()[:20000]})
+    chk.cov["preserve_api_histories"] = okn
+    return okn
+
+
 def run():
     chk = vlib.Check("C10")
     with vlib.Scratch("c10") as sc:
@@ -66,6 +143,7 @@ def run():
         chk.rng.shuffle(chains)
         a3 = hc.micro_campaign(chk, sc, build, chains[:len(chains) if chk.thorough else 60], 8, 64, "chain", batch=90)
         chk.cov["micro_behaviours"] = {"fast_path": a1, "slow_path": a2, "ephemeron_chains": a3}
+        chk.cov["traces_validated_against_impl"] += preserve_phase(chk, build, sc, chk.rng)
         # ---- TV of whole programs: every collection of every workload
         iters = 400000 if chk.thorough else 60000
         jobs = []
